@@ -724,6 +724,9 @@ func genCase64(r *rng.R, tier string) corr.Case {
 			if n > 3000 {
 				n = 3000
 			}
+			if r.Chance(1, 12) {
+				n = r.PickInt(3001, 4095, 4096, 4097, 5000, 65535, 65536, 65537, 100000) // GetN allocates n cells: large counts too
+			}
 			lines = append(lines, fmt.Sprintf("getn64 %s %s %d", wt, dir, n))
 			continue
 		}
@@ -885,6 +888,9 @@ func genCase1024(r *rng.R, tier string) corr.Case {
 			if n > 3000 {
 				n = 3000
 			}
+			if r.Chance(1, 12) {
+				n = r.PickInt(3001, 4095, 4096, 4097, 5000, 65535, 65536, 65537, 100000) // GetN allocates n cells: large counts too
+			}
 			lines = append(lines, fmt.Sprintf("getn a %s %s %d", wt, dir, n))
 			continue
 		}
@@ -1005,6 +1011,83 @@ func genCaseAlgebra(r *rng.R) corr.Case {
 	return corr.Case{Tag: "algebra:" + cls, Lines: lines}
 }
 
+// permutation of 0…1023 used by the walk scripts (397 is odd, so i*397+off is a bijection modulo 1024)
+func walkOrder(kind string, seed int) []int {
+	out := make([]int, 1024)
+	for i := range out {
+		switch kind {
+		case "asc":
+			out[i] = i
+		case "desc":
+			out[i] = 1023 - i
+		default:
+			out[i] = (i*397 + seed) % 1024
+		}
+	}
+	return out
+}
+
+// walkScript fills a register one member at a time until it is full, so that Len passes through every value 0…1024
+// (membership of exactly that index changes at every step — monitor after each call, `len` after each call, the
+// oracle sees the whole map every `dumpEvery` steps), then empties it again in another order.
+func walkScript(fill, drain []int, dumpEvery int, mix func(k int) string) []string {
+	lines := []string{"new"}
+	for k, i := range fill {
+		lines = append(lines, fmt.Sprintf("%s a %d", mix(k), i), "len a")
+		if (k+1)%dumpEvery == 0 {
+			lines = append(lines, "dump a")
+		}
+	}
+	lines = append(lines, "dump a", "getn a i16 f 1024", "getn a i32 r 1025")
+	for k, i := range drain {
+		op := "unseti32"
+		if k%2 == 1 {
+			op = "unseti16"
+		}
+		lines = append(lines, fmt.Sprintf("%s a %d", op, i), "len a")
+		if (k+1)%dumpEvery == 0 {
+			lines = append(lines, "dump a")
+		}
+	}
+	return append(lines, "dump a", "len a")
+}
+
+// genCaseWalk: a random-order walk of Len from 0 up to a random height (often all the way to 1024) and down again,
+// with repeated and out-of-range indices mixed in.
+func genCaseWalk(r *rng.R) corr.Case {
+	perm := walkOrder("perm", r.Intn(1024))
+	// shuffle blocks of the permutation so that orders differ between cases
+	for i := len(perm) - 1; i > 0; i-- {
+		j := r.Intn(i + 1)
+		perm[i], perm[j] = perm[j], perm[i]
+	}
+	height := r.PickInt(1024, 1024, 1000, 1001, 900, 901, r.Range(1, 1024))
+	lines := []string{"new"}
+	for k := 0; k < height; k++ {
+		op := r.Pick("seti32", "seti16")
+		lines = append(lines, fmt.Sprintf("%s a %d", op, perm[k]))
+		if r.Chance(1, 40) {
+			lines = append(lines, fmt.Sprintf("%s a %d", op, r.PickInt(perm[r.Intn(k+1)], -1, -63, 1024, 1087, -1024)))
+		}
+		if r.Chance(1, 8) {
+			lines = append(lines, "len a")
+		}
+		if r.Chance(1, 64) {
+			lines = append(lines, "dump a")
+		}
+	}
+	lines = append(lines, "dump a", "len a")
+	down := r.PickInt(0, height, r.Intn(height+1))
+	for k := 0; k < down; k++ {
+		lines = append(lines, fmt.Sprintf("%s a %d", r.Pick("unseti32", "unseti16"), perm[height-1-k]))
+		if r.Chance(1, 8) {
+			lines = append(lines, "len a")
+		}
+	}
+	lines = append(lines, "dump a", "len a")
+	return corr.Case{Tag: "walk", Lines: lines}
+}
+
 func genMalformed(r *rng.R) corr.Case {
 	bad := []string{"", "nope", "new 1", "magic", "magic x", "magic 99999999999", "w", "w xyz", "w 12345678901234567", "w FF", "set64 256", "set64 -1", "set64 a",
 		"len64 1", "alg64", "alg64 zz", "iter64 i7 f 3 0 0 1", "iter64 i8 x 3 0 0 1", "iter64 i8 f -3 0 0 1", "iter64 i8 f 3 0 0", "iter64 i8 f 3 0 a 1",
@@ -1105,6 +1188,37 @@ func fixedCases() []corr.Case {
 		}
 		cs = append(cs, corr.Case{Tag: "fixed:full-map", Lines: lines})
 	}
+	// Len walks through every value 0…1024 and back: three fill orders (word 0 last, word 0 first, scattered)
+	{
+		alt := func(k int) string {
+			if k%2 == 0 {
+				return "seti32"
+			}
+			return "seti16"
+		}
+		cs = append(cs, corr.Case{Tag: "fixed:walk-descending", Lines: walkScript(walkOrder("desc", 0), walkOrder("perm", 5), 16, alt)})
+		cs = append(cs, corr.Case{Tag: "fixed:walk-ascending", Lines: walkScript(walkOrder("asc", 0), walkOrder("desc", 0), 16, alt)})
+		cs = append(cs, corr.Case{Tag: "fixed:walk-scattered", Lines: walkScript(walkOrder("perm", 11), walkOrder("asc", 0), 1, func(k int) string {
+			if k%3 == 0 {
+				return "seti16"
+			}
+			return "seti32"
+		})})
+	}
+	// GetN with counts far beyond the number of members (it allocates n cells): every width, both layers
+	{
+		lines := []string{"new", "seti32 a 5", "w 8000000000000021"}
+		for _, n := range []int{3001, 4096, 4097, 5000, 65536, 100000} {
+			for _, wt := range []string{"i16", "i32", "i64"} {
+				lines = append(lines, fmt.Sprintf("getn a %s f %d", wt, n), fmt.Sprintf("getn a %s r %d", wt, n))
+			}
+			for _, wt := range []string{"i8", "i16", "i32", "i64"} {
+				lines = append(lines, fmt.Sprintf("getn64 %s f %d", wt, n), fmt.Sprintf("getn64 %s r %d", wt, n))
+			}
+		}
+		lines = append(lines, "load a "+strings.TrimSuffix(strings.Repeat("ffffffffffffffff,", 16), ","), "getn a i32 f 5000", "getn a i16 r 100000", "getn a i64 f 4097")
+		cs = append(cs, corr.Case{Tag: "fixed:getn-large-n", Lines: lines})
+	}
 	// algebra on structured pairs: differences that cancel under a wrapping sum / xor fold, complements, empty / full
 	{
 		mk := func(ps ...int) string {
@@ -1157,6 +1271,9 @@ func spec() corr.Spec {
 			return 10000 // search: after a broken tie; small scripts, algebra / set classes favoured (see Gen)
 		},
 		Gen: func(r *rng.R, tier string, i int) corr.Case {
+			if r.Chance(1, 40) {
+				return genCaseWalk(r) // Len through (almost) every value, random order
+			}
 			if tier == "search" {
 				// the widened search must stay fast: the cheap classes (algebra pairs, set histories, single words)
 				// carry most of the weight, the expensive 1024-bit iterator scripts a small share
@@ -1218,7 +1335,7 @@ func spec() corr.Spec {
 			}
 			return "C08:corr:" + f[0]
 		},
-		Rule: "scripts over one 64-bit word (classes: empty, single bit, at / just above the sparse threshold, sparse, dense, full, full-1, end bits, random) and two 1024-bit registers (member counts 0,1,63,64,65,1024, nearly full, word patterns, random); every script fixes a sparse threshold (-1, 0, 9, 64, random, int32 extremes) through the hook; iterator calls cover 5 widths x 2 directions, n in {-1,0,1,l-1,l,l+1,max,>1000,random}, add at the width's extremes, pos 0..5, slices with exact room, spare cells, one cell short, negative pos; set/unset with boundary and out-of-range indices; algebra on structured pairs (b vs b, vs complement, vs b with 1..3 bits flipped at bit 0/63 of any word, the same bit flipped in two / 2^k / all 16 words, empty / full) through Equal (both orders), And, Or, Reverse, OrThenReverse, Len, NLen; a case is non-trivial when an iterator wrote at least one value or a bitmap was mutated; distinct = distinct script text",
+		Rule: "scripts over one 64-bit word (classes: empty, single bit, at / just above the sparse threshold, sparse, dense, full, full-1, end bits, random) and two 1024-bit registers (member counts 0,1,63,64,65,1024, nearly full, word patterns, random); every script fixes a sparse threshold (-1, 0, 9, 64, random, int32 extremes) through the hook; iterator calls cover 5 widths x 2 directions, n in {-1,0,1,l-1,l,l+1,max,>1000,random}, add at the width's extremes, pos 0..5, slices with exact room, spare cells, one cell short, negative pos; set/unset with boundary and out-of-range indices; algebra on structured pairs (b vs b, vs complement, vs b with 1..3 bits flipped at bit 0/63 of any word, the same bit flipped in two / 2^k / all 16 words, empty / full; Len walks 0…1024…0 one member at a time in descending / ascending / scattered / random order with Len checked at every step; GetN with n up to 100000) through Equal (both orders), And, Or, Reverse, OrThenReverse, Len, NLen; a case is non-trivial when an iterator wrote at least one value or a bitmap was mutated; distinct = distinct script text",
 		Assumptions: []string{
 			"slices are shorter than 2^63 (cursor arithmetic modelled in unbounded Int)",
 			"Bit1024 values have 16 words (NewBit1024 / Reverse / And / Or all allocate L16 words); shorter slices built by hand are outside the model",
